@@ -390,7 +390,9 @@ pub fn judge_recorder(t: &RecorderTrace, o: &RecOutcome) -> Vec<Finding> {
                 if f.is_empty() {
                     compare("products", prods, &o.products_expect, &mut f);
                 }
-                if f.is_empty() {
+                // (the property speaks of the exit status; what a run records for a command that was
+                // killed by a signal is left open)
+                if f.is_empty() && matches!(rp.actor.exit, ExitSpec::Code(_)) {
                     let by = &extra["byproducts"];
                     let want_out = String::from_utf8_lossy(&rp.actor.stdout).to_string();
                     let want_err = String::from_utf8_lossy(&rp.actor.stderr).to_string();
